@@ -260,6 +260,14 @@ func (fr *Frame) applyContract(st *State, ct *Contract, f *ssa.Function, sig *ty
 	if ct.trusted {
 		fc.trusted[ct.pkgPath+"::"+ct.key] = true
 	}
+	if ct.hasAssgn && ct.noframe && !ct.trusted {
+		fc.trusted[ct.pkgPath+"::"+ct.key+" (frame not checked: noframe)"] = true
+	}
+	for _, cl := range ct.ensures {
+		if cl.kind == "axiom" {
+			fc.trusted[ct.pkgPath+"::"+ct.key+" (axiom: "+cl.text+")"] = true
+		}
+	}
 	pre := st.clone()
 	mkEnv := func(cur *State) *Env {
 		env := &Env{fr: fr, fc: fc, st: cur, old: pre, vars: map[string]envVar{}, bound: map[string]envVar{}, lets: map[string]Expr{}}
@@ -327,6 +335,13 @@ func (fr *Frame) applyContract(st *State, ct *Contract, f *ssa.Function, sig *ty
 			for _, g := range cs {
 				eng.frames.addAll(ws, eng.frames.of(g, nil))
 			}
+		}
+		if len(ct.keeps) > 0 {
+			// trusted partial frame: the named classes are not written
+			for _, k := range ct.keeps {
+				delete(ws, k)
+			}
+			fc.trusted[ct.pkgPath+"::"+ct.key+" (keeps "+strings.Join(ct.keeps, ",")+")"] = true
 		}
 		fr.havocClasses(st, ws, "call."+shortName(ct.key))
 	}
